@@ -5,6 +5,7 @@ import Mathlib.Algebra.BigOperators.Fin
 import Mathlib.Analysis.RCLike.Basic
 import Mathlib.Analysis.SpecialFunctions.Log.Basic
 import Mathlib.Analysis.SpecialFunctions.Sqrt
+import Mathlib.Analysis.SpecialFunctions.Pow.Real
 /-! Bridge between the executable, Mathlib-free model (`XM.Mat`, classes `Num`, `XM.Entry`) and Mathlib:
 the proofs instantiate the SAME polymorphic definitions the driver runs on `Float` at `ρ = ℝ`, `α = 𝕜`. -/
 open XM Matrix
@@ -14,11 +15,13 @@ noncomputable instance : Num ℝ where
   sqrt := Real.sqrt
   log := Real.log
   abs := fun x => |x|
+  pow := fun x y => x ^ y
 
 variable {𝕜 : Type} [RCLike 𝕜]
 noncomputable instance : XM.Entry ℝ 𝕜 :=
   { conj := star, ofReal := fun x => (x : 𝕜), divReal := fun x r => x / (r : 𝕜), normSq := fun x => RCLike.normSq x }
 
+@[simp] theorem Num.pow_real (x y : ℝ) : (Num.pow x y : ℝ) = x ^ y := rfl
 @[simp] theorem Num.ofNat_real (n : ℕ) : (Num.ofNat n : ℝ) = (n : ℝ) := rfl
 @[simp] theorem Entry.ofReal_eq (x : ℝ) : (Entry.ofReal x : 𝕜) = (x : 𝕜) := rfl
 @[simp] theorem Entry.divReal_eq (x : 𝕜) (r : ℝ) : (Entry.divReal x r : 𝕜) = x / (r : 𝕜) := rfl
